@@ -31,6 +31,7 @@ STEP_TMPL = {
     "Compare.comparators": "1 < (@X@)",
     "Dict.keys": "{(@X@): 1}",
     "Dict.values": "{1: (@X@)}",
+    "Dict.values+unpack": "{**(@X@)}",
     "DictComp.key": "{(@X@): 1 for i in 1}",
     "DictComp.value": "{1: (@X@) for i in 1}",
     "DictComp.generators/Comprehension.iterable": "{1: 1 for i in (@X@)}",
